@@ -356,6 +356,27 @@ pub fn run_c03(o: &Opts) -> i32 {
         total += 1;
         if samples.len() < 10 && k % 701 == 3 { samples.push(text); }
     }
+    // fixed corpus: unit names that read like time zones in another letter case; exponents of magnitude 2^62
+    {
+        let big = |u: &str, sign: &str| format!("(({u}^1073741824)^1073741824)^{sign}4", u = u, sign = sign);
+        let mut lines: Vec<(String, String, String)> = vec![];
+        for (src, tgt) in [("1 g", "uct"), ("3 St", "mSt"), ("3 St", "MSt"), ("3 St", "hSt"), ("1 St", "ESt"), ("5 carat", "uct"), ("1 m^2/s", "mSt")] { lines.push((src.to_string(), tgt.to_string(), tgt.to_string())); }
+        for u in ["m", "s"] { for sg in ["", "-"] {
+            let x = big(u, sg);
+            lines.push((format!("6 {}", x), format!("2 {}", x), format!("2 {}", x)));
+            lines.push((format!("{} / {}", x, x), "1".to_string(), "1".to_string()));
+            lines.push((format!("6 {} {}", x, u), format!("3 {} {}", u, x), format!("3 {} {}", u, x)));
+        } }
+        for (src, tgt, tgt_expr) in lines {
+            let (sv, tv) = (eval_number(&db.ctx, &src), eval_number(&db.ctx, &tgt_expr));
+            let a = match (&sv, &tv) {
+                (Some(s), Some(t)) => json!({"kind": "compound", "v": rat(&s.value), "t": rat(&t.value), "same": s.unit == t.unit, "tdim": fmt_dim(&t.unit), "exact_inputs": false, "recip": false}),
+                _ => json!({"kind": "compound", "v": null, "t": null}),
+            };
+            emit(&format!("{} -> {}", src, tgt), a);
+            total += 1;
+        }
+    }
     drop(emit);
     req.flush().unwrap(); aux.flush().unwrap();
     crate::util::write_json(&format!("{}/stats.json", o.out), &json!({"total": total, "conformable": conform, "samples": samples,
